@@ -3,6 +3,7 @@ package main
 import (
 	"fmt"
 	"go/types"
+	"math"
 	"strings"
 
 	"golang.org/x/tools/go/ssa"
@@ -156,13 +157,28 @@ func init() {
 		},
 	}
 
+	// libm on concrete doubles is evaluated natively (the engine and the replay binaries use the same Go runtime),
+	// like IEEE arithmetic on constants; with a symbolic argument the result is an unconstrained finite value
+	libm1 := map[string]func(float64) float64{"sin": math.Sin, "cos": math.Cos, "tan": math.Tan, "asin": math.Asin, "acos": math.Acos,
+		"atan": math.Atan, "sqrt": math.Sqrt, "floor": math.Floor}
+	libm2 := map[string]func(float64, float64) float64{"atan2": math.Atan2, "mod": math.Mod, "pow": math.Pow}
 	mathUnaryAbstract := func(op string) intrinsicFn {
 		return func(in *Interp, st *State, fn *ssa.Function, args []Value, instr ssa.Instruction) (Value, bool) {
-			return mapChoice(args[0], func(a Value) Value { return abstractUnary(op, a.(FVal)) }), true
+			return mapChoice(args[0], func(a Value) Value {
+				if x, ok := constF64(a.(FVal)); ok {
+					return fconst(libm1[op](x))
+				}
+				return abstractUnary(op, a.(FVal))
+			}), true
 		}
 	}
 	mathBinaryAbstract := func(op string) intrinsicFn {
 		return func(in *Interp, st *State, fn *ssa.Function, args []Value, instr ssa.Instruction) (Value, bool) {
+			if x, ok := constF64(args[0].(FVal)); ok {
+				if y, ok := constF64(args[1].(FVal)); ok {
+					return fconst(libm2[op](x, y)), true
+				}
+			}
 			return abstractResult(op, args[0].(FVal), args[1].(FVal)), true
 		}
 	}
@@ -256,6 +272,10 @@ func init() {
 		"math.Pow":   mathBinaryAbstract("pow"),
 		"math.Sincos": func(in *Interp, st *State, fn *ssa.Function, args []Value, instr ssa.Instruction) (Value, bool) {
 			f := args[0].(FVal)
+			if x, ok := constF64(f); ok {
+				sn, cs := math.Sincos(x)
+				return Tuple{fconst(sn), fconst(cs)}, true
+			}
 			return Tuple{abstractUnary("sin", f), abstractUnary("cos", f)}, true
 		},
 		"errors.New": func(in *Interp, st *State, fn *ssa.Function, args []Value, instr ssa.Instruction) (Value, bool) {
